@@ -207,7 +207,15 @@ fn gen_impl_delegation_trait_defs(
 
                 if let Some(first_arg) = trait_fn.entrait_sig.sig.inputs.first_mut() {
                     if let syn::FnArg::Receiver(receiver) = first_arg {
-                        *first_arg = if let Some((and, lifetime)) = receiver.reference.clone() {
+                        // `&self`, or its typed spelling `self: &Self`
+                        let reference = match (&receiver.reference, receiver.ty.as_ref()) {
+                            (Some(reference), _) => Some(reference.clone()),
+                            (None, syn::Type::Reference(ty)) => {
+                                Some((ty.and_token, ty.lifetime.clone()))
+                            }
+                            (None, _) => None,
+                        };
+                        *first_arg = if let Some((and, lifetime)) = reference {
                             syn::parse_quote! {
                                 __impl: #and #lifetime ::#entrait::Impl<EntraitT>
                             }
